@@ -53,6 +53,14 @@ def io_names(run, r):
         if isinstance(c.func, ast.Attribute) and c.func.attr == 'append' and isinstance(strip_cast(c.func.value), ast.Subscript) \
                 and q.const_str(strip_cast(c.func.value).slice) == 'transitions' and c.args and isinstance(c.args[0], ast.Name):
             tdata = c.args[0].id
+    if tdata is None:
+        # the list is built in a local first:  acc = []; for ..: acc.append(<tdata>); data['transitions'] = acc
+        for v, node in keys_written(X, data).get('transitions', []):
+            v = strip_cast(v)
+            if isinstance(v, ast.Name):
+                for elt, it, conds, anode in q.accumulations(X, v.id):
+                    if isinstance(elt, ast.Name) and not conds:
+                        tdata = elt.id
     run.anchor(tdata, r, "dict appended to <data>['transitions'] in _export_state_to_dict")
     state_v = [st.targets[0].id for st in q.walk(X, False) if isinstance(st, ast.Assign) and isinstance(st.targets[0], ast.Name)
                and isinstance(strip_cast(st.value), ast.Call) and 'Statechart.state_for' in q.callee_shorts(run, strip_cast(st.value))[0]]
@@ -277,6 +285,8 @@ def rules_eq(run):
         if m is None:
             continue
         called = {dotted(c.func).split('.')[0] for c in q.calls(m.node) if isinstance(c.func, ast.Attribute) and c.func.attr == '__eq__' and dotted(c.func)}
+        called = {x for x in called if run.prog.has_cls(x)}     # (loop variables of a table-driven form are accounted for below)
+        called |= _eq_through_helper(run, m)
         bases = {b.name for b in ci.bases}
         run.check(called == bases, r, m.short, 'combines __eq__ of all its bases %s' % sorted(bases), 'combines %s' % sorted(called), m.node)
     tr = run.prog.cls('Transition').methods.get('__eq__')
@@ -284,6 +294,60 @@ def rules_eq(run):
     run.check(attrs == ['action', 'event', 'guard', 'priority', 'source', 'target'] and any(
         isinstance(c.func, ast.Attribute) and c.func.attr == '__eq__' and dotted(c.func) == 'ContractMixin.__eq__' for c in q.calls(tr.node)), r, tr.short,
         'Transition equality covers source, target, event, guard, action, priority and the contract', 'covers %s' % attrs, tr.node)
+
+
+def _table_eq(h, is_seq):
+    """True when function h applies <x>.__eq__(..) to every element x of the sequence denoted by expressions satisfying is_seq:
+    a loop over it whose first statement makes the call, or an unpacking of it all of whose parts are covered."""
+    def eq_called_on(name):
+        return any(isinstance(x, ast.Call) and isinstance(x.func, ast.Attribute) and x.func.attr == '__eq__' and isinstance(x.func.value, ast.Name)
+                   and x.func.value.id == name for x in ast.walk(h))
+
+    def loop_covers(l):
+        return isinstance(l.target, ast.Name) and eq_called_on(l.target.id) and any(isinstance(x, ast.Attribute) and x.attr == '__eq__' for x in ast.walk(l.body[0]))
+
+    def name_seq_covered(seq):
+        return any(loop_covers(l) for l in ast.walk(h) if isinstance(l, ast.For) and isinstance(strip_cast(l.iter), ast.Name) and strip_cast(l.iter).id == seq)
+    for n in ast.walk(h):
+        if isinstance(n, ast.For) and is_seq(strip_cast(n.iter)) and loop_covers(n):
+            return True
+        if isinstance(n, ast.Assign) and is_seq(strip_cast(n.value)) and isinstance(n.targets[0], (ast.Tuple, ast.List)):
+            okp = True
+            for t_ in n.targets[0].elts:
+                if isinstance(t_, ast.Starred) and isinstance(t_.value, ast.Name):
+                    okp = okp and name_seq_covered(t_.value.id)
+                elif isinstance(t_, ast.Name):
+                    okp = okp and eq_called_on(t_.id)
+                else:
+                    okp = False
+            if okp:
+                return True
+    return False
+
+
+def _eq_through_helper(run, m):
+    """Classes whose __eq__ is applied table-driven: over a display (A, B, ..) of class names inside the method itself, or through a
+    helper h(self, other, (A, B, ..)) that applies <x>.__eq__ to every element x of that parameter."""
+    out = set()
+
+    def is_display(e):
+        return isinstance(e, (ast.Tuple, ast.List)) and e.elts and all(isinstance(x, ast.Name) for x in e.elts)
+    for n in ast.walk(m.node):
+        if is_display(n) and isinstance(getattr(n, 'ctx', None), ast.Load) and _table_eq(m.node, lambda e, n=n: e is n):
+            out |= {x.id for x in n.elts}
+    for c in q.calls(m.node):
+        if not isinstance(c.func, ast.Name):
+            continue
+        targets = [t for t in run.prog.resolve_call(c, m)[0] if isinstance(t.node, ast.FunctionDef)]
+        if len(targets) != 1:
+            continue
+        h = targets[0].node
+        params = [a.arg for a in h.args.args]
+        for i, a in enumerate(c.args):
+            a = strip_cast(a)
+            if is_display(a) and i < len(params) and _table_eq(h, lambda e, p_=params[i]: isinstance(e, ast.Name) and e.id == p_):
+                out |= {e.id for e in a.elts}
+    return out
 
 
 def check(run):
@@ -408,16 +472,28 @@ def check(run):
                         imp_types['children:' + key[0]] = c.func.id
     exp_types = {}
     for k in ('type', 'states', 'parallel states'):
-        for v, node in keys_written(xi.node, N['data']).get(k, []):
-            at = guard_atoms(node)
+        for v0, node in keys_written(xi.node, N['data']).get(k, []):
             pre = 'isinstance(%s,' % N['state']
-            cls = [a[1].replace(' ', '')[len(pre):-1] for a in at if a[0] == 'truthy' and a[1].replace(' ', '').startswith(pre)]
-            cls = [c_ for c_ in cls if not c_.endswith('Mixin')]
-            if k == 'type':
-                lit = q.const_str(v)
-                exp_types[lit] = cls[-1] if cls else None
-            else:
-                exp_types['children:' + k] = cls[-1] if cls else None
+            for v, c_at in (q.cases(xi.node, v0) if k == 'type' else [(v0, [])]):
+                at = guard_atoms(node) + c_at
+                # the classes the state is known to belong to: every positive test narrows the set, negative tests remove members
+                sets = [set(a[1].replace(' ', '')[len(pre):-1].strip('()').split(',')) for a in at if a[0] == 'truthy' and a[1].replace(' ', '').startswith(pre)]
+                sets = [{c_ for c_ in s_ if not c_.endswith('Mixin')} for s_ in sets]
+                sets = [s_ for s_ in sets if s_]
+                neg = set()
+                for a in at:
+                    if a[0] == 'falsy' and a[1].replace(' ', '').startswith(pre):
+                        neg |= set(a[1].replace(' ', '')[len(pre):-1].strip('()').split(','))
+                cand = None
+                for s_ in sets:
+                    cand = set(s_) if cand is None else ((cand & s_) or cand)
+                cand = (cand or set()) - neg
+                one = next(iter(cand)) if len(cand) == 1 else None
+                if k == 'type':
+                    lit = q.const_str(v)
+                    exp_types[lit if lit is not None else '?' + q.unparse(v)[:40]] = one
+                else:
+                    exp_types['children:' + k] = one
     run.floor(len(imp_types), 5, r3, 'kind selections in the importer')
     for k in sorted(set(imp_types) | set(exp_types)):
         run.check(imp_types.get(k) == exp_types.get(k) and imp_types.get(k) is not None, r3, 'io', "kind '%s' <-> %s" % (k, imp_types.get(k)),
